@@ -110,6 +110,7 @@ type transaction struct {
 	store   *store
 	op      keyvalue.OpID
 	results []keyvalue.OpResult
+	unlock  sync.Once
 }
 
 func (s *store) Transaction(options keyvalue.TransactionOptions) (keyvalue.Transaction, error) {
@@ -180,13 +181,17 @@ func (t *transaction) SetHandler(path string, src keyvalue.FileRecord, contents 
 }
 
 func (t *transaction) Commit(ctx context.Context) ([]keyvalue.OpResult, error) {
-	t.abort()
-	t.store.mu.Unlock()
+	t.finish()
 	return t.results, nil
 }
 
 func (t *transaction) Abort() error {
-	t.abort()
-	t.store.mu.Unlock()
+	t.finish()
 	return nil
+}
+
+// finish ends the transaction and releases the store exactly once, e.g. when a handler aborts and the caller commits afterward.
+func (t *transaction) finish() {
+	t.abort()
+	t.unlock.Do(t.store.mu.Unlock)
 }
